@@ -264,7 +264,7 @@ def w_short_dsb():
 def w_legacy_nano():
     impl, tlsgen, table, _ = env()
     from ref import synth
-    s = tls12(random.Random(12), tlsgen, table)
+    s = tls12(random.Random(12), tlsgen, table, hs12_cuts=None, shape="full")     # an unfragmented flight: the parent of the fix still lacks 101e670
     leg = synth.pcap_legacy([(p["ts"] // 1000000, (p["ts"] % 1000000) * 1000, p["frame"]) for p in s.packets], nano=True)
     return expect_no_crash(impl, leg, s.keylog, ["-l"])
 
